@@ -208,6 +208,8 @@ def run_real(c, ctx):
             else:
                 res = crop.reap(**opts)
             fm = crop.farmer                       # after a reload this is the unpickled farmer
+            # a crop re-created from disk gets its function back, and so does its farmer
+            fn_attached = (crop.fn is not None) and (getattr(getattr(fm, 'runner', fm), 'fn', None) is not None)
             if c.get('between') and not conflict:
                 # the reference is a direct run by somebody who starts from the store as it is now
                 farmer2, runner2 = _mk_farmer(xyz, c, f, data_direct)
@@ -245,6 +247,7 @@ def run_real(c, ctx):
             obs['store_direct'] = labelled.canon_df(xyz.load_df(data_direct, engine=c['engine']))
             obs['mem'] = labelled.canon_df(fm.full_df)
         obs['dir_left'] = os.path.exists(os.path.join(d, '.xyz-t'))
+        obs['fn_attached'] = fn_attached
         obs['oracle'] = (labelled.oracle_df(obs['res'], sw, _eff_desc(c), sweeps.n_settings(sw)) if c['to_df']
                          else labelled.oracle_ds(res, sw, _eff_desc(c)))
         return obs
@@ -309,6 +312,8 @@ def oracle(c, obs):
     if 'calls_crop' in obs and obs['calls_crop'] != obs['calls_direct']:
         a = [x for x in obs['calls_crop'] if x not in obs['calls_direct']][:2]; b = [x for x in obs['calls_direct'] if x not in obs['calls_crop']][:2]
         return f'growing the crop called the function with other keyword arguments than the direct run: crop {a} direct {b}'
+    if c['reload'] and not obs.get('fn_attached', True):
+        return 'the crop was re-created from disk but its function was not re-attached to the crop and its farmer'
     if not obs['last_is_res']: return "the farmer's last result is not the reaped data"
     if c['farmer'] == 'harvester':
         dd = labelled.diff_ds(obs['store'], obs['store_direct'])
